@@ -106,9 +106,12 @@ def _shapes(tier, t, W, reduced):
         Ms = list(range(1, 14)) + [16, 17, 20, 21, 24, 25]
         Ks = (1, 2, 3, 5, 8)
         Ns = range(1, 5 * W + 3)
+        far = [N for N in Ns if N > 3 * W + 2 and N % W not in (W - 1, 0, 1, 2)]     # interior of the fourth and fifth vector: small M only
         for M in Ms:
             for K in Ks:
                 for N in Ns:
+                    if M > 5 and M not in (12, 13) and N in far:
+                        continue
                     S.add((M, K, N))
         for M in (3 * W, 12, 24, 36):
             for N in (3 * W, 6 * W, 25, 27, 30, 33, 48):
@@ -137,9 +140,12 @@ def cases(tier, cfg):
         shapes = _shapes(tier, t, W, reduced)
         if variant and tier == "thorough":
             # variants (std/opt/sanitizer/macros) re-run the shapes that reach the blocked kernels, thinned on M
-            shapes = [s for s in shapes if s[0] in (1, 2, 3, 4, 5, 7, 9, 12, 13, 17, 24) or s[0] == s[1] == s[2]]
-            if cfg.san or cfg.opt == "O0":
-                shapes = [s for s in shapes if s[1] in (1, 3, 8)]
+            # (sized so that the whole tier fits its 40-minute deadline on 16 cores: rows thinned to one per remainder class of the row
+            # blocks, K to {1,3}, N to the first vector and the boundaries of every later one)
+            shapes = [s for s in shapes if (s[0] in (1, 2, 4, 5, 9, 13, 24) and s[1] in (1, 3) and (s[2] <= W + 1 or s[2] % W in (W - 1, 0, 1, 2)))
+                      or s[0] == s[1] == s[2] or s[0] >= 2 * W + 4]
+            if cfg.san:
+                shapes = [s for s in shapes if s[1] == 3 or s[0] == s[1] == s[2]]
         for (M, K, N) in shapes:
             ct = CTYPE[t]
             rt = _route(t, M, K, N, W, cfg.isa)
@@ -172,8 +178,9 @@ def cases(tier, cfg):
 def bounds(tier):
     return {"quick": "cube M,K,N<=4; M in {1..5,9..13,21} x K in {1,3} x N in {1..2W+1} u {kW-1,kW,kW+1:k=3,4,5} u {5W+2}; 8^3; M=2W+5 (four-row middle zone) x three (K,N); "
                      "types f32,f64,i32 full, i64,c64 reduced; six ISAs",
-            "thorough": "cube <=6; M in {1..13,16,17,20,21,24,25} x K in {1,2,3,5,8} x N in 1..5W+2; block corners; "
-                        "all six types; six ISAs + C++17, O0, O3, ASan+UBSan, clang, matmul block-size macros"}[tier]
+            "thorough": "cube <=6; M in {1..13,16,17,20,21,24,25} x K in {1,2,3,5,8} x N in 1..5W+2 (for M>5, M not in {12,13}: N <= 3W+2 and the boundaries of the later vectors); block corners; middle-zone shapes; "
+                        "all six types; six ISAs; + C++17, O0, O3, ASan+UBSan, clang, matmul block-size macros on a thinned grid (M in {1,2,4,5,9,13,24}, K in {1,3}, "
+                        "N <= W+1 and the boundaries kW-1..kW+2 of every later vector, the cube, the middle-zone shapes)"}[tier]
 
 TECHNIQUE = "bounded-exhaustive enumeration of shapes x types x entry points x ISA builds, real kernel vs reference at every point (basis probing)"
 LEVEL_TEXT = ("Every (entry point, type, M, K, N) of the stated box is instantiated and executed under each ISA build; the bilinear "
